@@ -29,6 +29,9 @@ func generate(prop string, seed uint64, i int) *Scenario {
 	case "C13":
 		return genStream(rs, faulty)
 	case "C17":
+		if i%16 == 3 {
+			return genFileBlank(rs, faulty) // the watching file source is set on a Blank after Config
+		}
 		return genFile(rs, faulty)
 	case "C18":
 		return genEz(rs, faulty)
